@@ -115,6 +115,8 @@ class Pipeline(BCheck):
             if len(sets) <= 1 or inp.get("straddle"):
                 keep.append(rd)
         sc["reads"] = keep
+        if not keep:
+            return None        # nothing left to tag: haplotag rightly refuses a BAM without reads
         cutoff = 50000
         if inp.get("bx"):
             # linked reads: pairs of reads that share a barcode but start farther apart than the linked-read cutoff (in either order) are two read clouds;
